@@ -3,6 +3,7 @@ package ir
 import (
 	"fmt"
 	"go/constant"
+	"go/token"
 	"go/types"
 	"strings"
 
@@ -1205,4 +1206,150 @@ func (w *World) ContentAt(at ssa.Instruction, al *ssa.Alloc) *Expr {
 		return nil
 	}
 	return &Expr{Op: "ref", Args: []*Expr{b.rd.at(at, al, nil)}, V: al}
+}
+
+// PhiInstance is one way control can enter the block of a phi: the incoming edges of all the other ways are cut, and
+// every phi of that block stands for its operand on this way. A site whose arguments are chosen together by a branch
+// (`switch verdict { case A: x, y = a1, a2; case B: x, y = b1, b2 }; use(x, y)`) is judged once per instance, like the
+// two sites it replaces.
+type PhiInstance struct {
+	Block *ssa.BasicBlock
+	Cut   map[[2]int]bool
+	pick  map[*ssa.Phi]ssa.Value
+	preds []*ssa.BasicBlock // the ways into Block that this instance keeps
+}
+
+// PhiInstances: the instances of the phi that v is (through conversions); one empty instance when v is not a phi.
+func PhiInstances(v ssa.Value) []PhiInstance {
+	ph, ok := stripConv(v).(*ssa.Phi)
+	if !ok || len(ph.Edges) < 2 {
+		return []PhiInstance{{}}
+	}
+	blk := ph.Block()
+	// ways that bring the same operands for every phi of the block are one instance
+	type group struct {
+		preds []int
+	}
+	sig := func(i int) string {
+		s := ""
+		for _, in := range blk.Instrs {
+			p2, ok := in.(*ssa.Phi)
+			if !ok {
+				break
+			}
+			s += p2.Edges[i].Name() + fmt.Sprintf("@%p;", p2.Edges[i])
+		}
+		return s
+	}
+	var order []string
+	groups := map[string]*group{}
+	for i := range blk.Preds {
+		k := sig(i)
+		if groups[k] == nil {
+			groups[k] = &group{}
+			order = append(order, k)
+		}
+		groups[k].preds = append(groups[k].preds, i)
+	}
+	if len(order) < 2 {
+		return []PhiInstance{{}}
+	}
+	var out []PhiInstance
+	for _, k := range order {
+		g := groups[k]
+		keep := map[int]bool{}
+		for _, i := range g.preds {
+			keep[i] = true
+		}
+		inst := PhiInstance{Block: blk, Cut: map[[2]int]bool{}, pick: map[*ssa.Phi]ssa.Value{}}
+		for i, pred := range blk.Preds {
+			if keep[i] {
+				inst.preds = append(inst.preds, pred)
+				continue
+			}
+			for si, s := range pred.Succs {
+				if s == blk {
+					inst.Cut[[2]int{pred.Index, si}] = true
+				}
+			}
+		}
+		for _, in := range blk.Instrs {
+			p2, ok := in.(*ssa.Phi)
+			if !ok {
+				break
+			}
+			inst.pick[p2] = p2.Edges[g.preds[0]]
+		}
+		out = append(out, inst)
+	}
+	return out
+}
+
+// Value: what v stands for on this instance (a phi of the instance's block: its operand; a load of a local that every
+// way kept by the instance assigns last in one and the same store — a record chosen together with the phi'd values:
+// that store's value; anything else: itself).
+func (pi PhiInstance) Value(v ssa.Value) ssa.Value {
+	if pi.pick == nil {
+		return v
+	}
+	if ph, ok := stripConv(v).(*ssa.Phi); ok {
+		if x, ok := pi.pick[ph]; ok {
+			return x
+		}
+	}
+	if u, ok := v.(*ssa.UnOp); ok && u.Op == token.MUL {
+		if al, ok := u.X.(*ssa.Alloc); ok && al.Referrers() != nil && len(pi.preds) > 0 {
+			// the stores to the local that lie on every kept way into the block: the last of them is what the load sees,
+			// provided no other store can run between it and the block
+			var cands []*ssa.Store
+			var all []*ssa.Store
+			for _, r := range *al.Referrers() {
+				st, ok := r.(*ssa.Store)
+				if !ok || st.Addr != ssa.Value(al) {
+					continue
+				}
+				all = append(all, st)
+				onAll := true
+				for _, p := range pi.preds {
+					if !(st.Block() == p || st.Block().Dominates(p)) {
+						onAll = false
+					}
+				}
+				if onAll {
+					cands = append(cands, st)
+				}
+			}
+			var last *ssa.Store
+			for _, c := range cands {
+				isLast := true
+				for _, d := range cands {
+					if d != c && !(d.Block() == c.Block() && InstrIndex(d) < InstrIndex(c) || d.Block() != c.Block() && d.Block().Dominates(c.Block())) {
+						isLast = false
+					}
+				}
+				if isLast {
+					last = c
+				}
+			}
+			if last != nil {
+				// no other store between last and the instance's block on the kept ways
+				clean := true
+				for _, o := range all {
+					if o == last {
+						continue
+					}
+					for _, p := range pi.preds {
+						term := p.Instrs[len(p.Instrs)-1]
+						if ReachesFrom(al.Parent(), last.Block(), InstrIndex(last)+1, o, Cut{}) && ReachesFrom(al.Parent(), o.Block(), InstrIndex(o)+1, term, Cut{Barrier: func(in ssa.Instruction) bool { return in == ssa.Instruction(last) }}) {
+							clean = false
+						}
+					}
+				}
+				if clean {
+					return last.Val
+				}
+			}
+		}
+	}
+	return v
 }
